@@ -445,6 +445,13 @@ func (r *runner) runBatch(bi int, b batch) *batchOutcome {
 			o.crashes = append(o.crashes, Violation{Prop: r.p.ID, Phase: b.name, Tier: r.tier, Seed: r.seed, Idx: last,
 				Kind: "crash-unreproduced", Msg: fmt.Sprintf("child process died (exit %d) with a Go runtime fatal error / panic in library code; it did not reproduce when the case was re-run alone (schedule-dependent): %s", code, firstLines(stderrText, 3)),
 				Detail: map[string]any{"stderr_head": firstLines(stderrText, 80), "batch_lo": b.lo, "batch_hi": b.hi}})
+		} else if seq, stext := r.confirmSequence(b, last, skip, tag); seq {
+			// the case is harmless alone and fatal after the cases before it: the
+			// library carried something from one call to the next (a lock left
+			// held, a poisoned cache). Reproduced twice in fresh processes.
+			o.crashes = append(o.crashes, Violation{Prop: r.p.ID, Phase: b.name, Tier: r.tier, Seed: r.seed, Idx: last,
+				Kind: kind + "-after-sequence", Msg: fmt.Sprintf("child process died (exit %d) while running this case; it does not reproduce alone but reproduces (twice, in fresh processes) when the cases %d..%d of its batch run first in the same process", code, b.lo, last-1),
+				Detail: map[string]any{"stderr_head": firstLines(stderrText, 60), "stderr_sequence": firstLines(stext, 60), "batch_lo": b.lo, "batch_hi": b.hi, "skipped": strings.Join(skip, ",")}})
 		} else {
 			o.inconcl = append(o.inconcl, fmt.Sprintf("child %s died (exit %d) at case %d but the case does not reproduce alone: %s", tag, code, last, firstLines(stderrText, 20)))
 		}
@@ -501,6 +508,39 @@ func (r *runner) confirm(b batch, idx int, tag string) (bool, string) {
 		}
 	}
 	return false, ""
+}
+
+// confirmSequence re-runs the batch's cases up to and including idx in a fresh
+// process, twice, with the generous per-case bound of the alone confirmation.
+// It answers true only if both runs die at that very case. Race-built children
+// are left out: their slowness under load is not evidence.
+func (r *runner) confirmSequence(b batch, idx int, skip []string, tag string) (bool, string) {
+	if b.race || idx <= b.lo {
+		return false, ""
+	}
+	text := ""
+	for i := 0; i < 2; i++ {
+		out := filepath.Join(r.scratch, fmt.Sprintf("%s.seq%d.json", tag, i))
+		errf := filepath.Join(r.scratch, fmt.Sprintf("%s.seq%d.stderr", tag, i))
+		prog := filepath.Join(r.scratch, fmt.Sprintf("%s.seq%d.progress", tag, i))
+		args := []string{"child", "-prop", r.p.ID, "-phase", b.name, "-tier", string(r.tier),
+			"-seed", strconv.FormatInt(r.seed, 10), "-lo", strconv.Itoa(b.lo), "-hi", strconv.Itoa(idx + 1),
+			"-skip", strings.Join(skip, ","), "-out", out, "-progress", prog, "-findings", r.findings, "-case-timeout", "120"}
+		limit := 900 * time.Second
+		if r.tier == Thorough {
+			limit = 3600 * time.Second
+		}
+		code, timedOut := runChild(r.bin, args, os.Environ(), errf, limit)
+		if code == 0 && !timedOut {
+			return false, ""
+		}
+		if lastProgress(prog) != idx {
+			return false, ""
+		}
+		eb, _ := os.ReadFile(errf)
+		text = string(eb)
+	}
+	return true, text
 }
 
 func runChild(bin string, args []string, env []string, stderrPath string, timeout time.Duration) (code int, timedOut bool) {
